@@ -28,6 +28,11 @@ def pools(seed, nq=6, nt=7):
     Q = [rand_pwm(rng, L) for L in lens]
     T = [rand_pwm(rng, rng.randint(4, 11)) for _ in range(nt)]
     T[0] = Q[1].copy()
+    if nq > 4:
+        # a query that is a PREFIX of the longer query listed just before it (same leading columns): per-thread shortcuts that
+        # compare only the current query's columns must not take it for a repetition
+        Q[2] = Q[1][:, :lens[2]].copy()
+        Q[4] = Q[3][:, :lens[4]].copy()
     # a database that contains one motif three times (merged collections): exactly tied p-values, at low target indices, so that an
     # n_nearest cut can fall inside the tie while strictly better targets sit at higher indices
     if nt > 4:
@@ -100,6 +105,9 @@ def run_annotate(c):
     for order in ([4], [5], list(range(6)), [5, 3, 1, 0, 2, 4], [2, 2, 0], [5, 4], [4, 5]):
         for threads in (1, c["threads"]):
             df = pandas.DataFrame([rows[i] for i in order], columns=["example_idx", "start", "end"])
+            if len(order) > 2 and threads == 1:
+                # a table that was re-ordered / filtered without reset_index: labels are not 0..n-1 in order (row ORDER is what counts)
+                df.index = [17 - 3 * k for k in range(len(df))] if order[0] == 5 else list(range(len(df)))[::-1]
             try:
                 idxs, pv = annotate_seqlets(X, df, motifs, n_nearest=2, n_jobs=threads)
                 for pos, i in enumerate(order):
